@@ -60,7 +60,10 @@ pub fn check(prop_values: bool, prop_signals: bool, d: &reg::IDesc, cfg: &dyn DC
 	let mut vfail = vec![false; nv as usize];
 	let mut sfail = vec![false; ns as usize];
 	// optional leading copies of the first candle (C08's signal prefix-invariance is decided here)
-	let stream: Vec<Candle> = std::iter::repeat(cs[0]).take(prefix).chain(cs.iter().cloned()).collect();
+	// "init-not-refed": initialised with cs[0], the stream continues with cs[1] (the crate's own `over` feeds the first candle
+	// again; a user who calls init(c0) and then next(c1), next(c2), ... is the case a seed taken from the wrong field of the
+	// init candle, or a detector started from the wrong state, hides behind)
+	let stream: Vec<Candle> = if tag == "init-not-refed" { cs[1..].to_vec() } else { std::iter::repeat(cs[0]).take(prefix).chain(cs.iter().cloned()).collect() };
 	for (i, c) in stream.iter().enumerate() {
 		let res = match guard(|| inst.next(c)) {
 			Ok(x) => x,
@@ -194,7 +197,8 @@ fn run(values: bool, signals: bool, ctx: &Ctx, r: &mut Report) {
 			let class = c["stream_class"].as_u64().unwrap_or(0) as usize;
 			let seed = c["seed"].as_u64().unwrap_or(0);
 			let cs = gen::candles(class, seed, c["len"].as_u64().unwrap_or(400) as usize, 14);
-			check(values, signals, &d, cfg.as_ref(), &cs, "replay", seed, class, c["leading_copies"].as_u64().unwrap_or(0) as usize, r);
+			let tag = if c["tag"].as_str() == Some("init-not-refed") { "init-not-refed" } else { "replay" };
+			check(values, signals, &d, cfg.as_ref(), &cs, tag, seed, class, c["leading_copies"].as_u64().unwrap_or(0) as usize, r);
 		}
 		return;
 	}
@@ -217,7 +221,11 @@ fn run(values: bool, signals: bool, ctx: &Ctx, r: &mut Report) {
 				let cs = gen::candles(class, seed, steps, 14);
 				// C06 also runs streams with leading copies of the first candle (signal prefix-invariance, see C08)
 				let prefix = if signals && (ci + j) % 3 == 1 { [1usize, 2, 13][(k % 3) as usize] } else { 0 };
-				let did = check(values, signals, &d, cfg.as_ref(), &cs, "sweep", seed, class, prefix, r);
+				let tag = if prefix == 0 && (ci + 2 * j) % 4 == 3 { "init-not-refed" } else { "sweep" };
+				let did = check(values, signals, &d, cfg.as_ref(), &cs, tag, seed, class, prefix, r);
+				if did && tag == "init-not-refed" {
+					r.cell(&format!("{prop}:init-not-refed"));
+				}
 				covered |= did;
 				if did {
 					r.cell(&format!("{prop}:ma-kind:{}:{}", d.name, ma_kind_of(&cfg.ser().unwrap_or(Value::Null))));
